@@ -127,6 +127,27 @@ def maxLiveFrom : Nat → Nat → List Ev → Nat
 
 def maxLive (log : List Ev) : Nat := maxLiveFrom 0 0 log
 
+/-! ### the `Wait` window
+
+`sub.Wait()` (`subscription.go:167-177`) adds a finalizer that wakes the waiter; on a subscription whose
+`done` flag is already set it runs at once (`subscription.go:79-91`) — also when the finalizers taken by
+the `Unsubscribe` that set the flag are *still running* on the attempt's goroutine
+(`subscription.go:104-150`: the flag is set and the lock released before the loop over the finalizers).
+In the schedule where every attempt delivers its terminal after its teardown has been registered and
+before the operator reaches `Wait`, the operator therefore goes on — and subscribes the next attempt —
+while the previous teardown has not finished. The harness drives exactly this schedule (`mode=tdrace`);
+the log is then s₁ s₂ t₁ s₃ t₂ … sₙ tₙ₋₁ tₙ. -/
+
+/-- attempt `i` is subscribed and its teardown is running; `m` more attempts follow -/
+def overlapTail : Nat → Nat → List Ev
+  | i, 0 => [.t i]
+  | i, m + 1 => .s (i + 1) :: .t i :: overlapTail (i + 1) m
+
+/-- the log of `n` attempts in the `Wait`-window schedule -/
+def overlapLog : Nat → List Ev
+  | 0 => []
+  | m + 1 => .s 1 :: overlapTail 1 m
+
 /-! ### RetryWithConfig (`operator_error_handling.go:156-220`) -/
 
 structure RetryCfg where
@@ -291,6 +312,7 @@ def concat (n : Nat) (sub : Ctx) (outs : List Outcome) : Result := concatLoop su
 inductive Mode
   | sync    -- every attempt plays inside `Subscribe`
   | async   -- every attempt plays from its own goroutine
+  | tdrace  -- the `Wait`-window schedule (not for Catch)
 deriving DecidableEq, Repr
 
 /-- The fallback is subscribed from inside the error callback of the first subscription, with
@@ -305,7 +327,7 @@ def catch_ (mode : Mode) (sub : Ctx) (outs : List Outcome) : Result :=
     { raw := o₁.nexts sub ++ (o₂.nexts c₂ ++ [o₂.terminal c₂])
       log := match mode with
         | .sync => [.s 1, .s 2, .t 2, .t 1]
-        | .async => [.s 1, .s 2, .t 1, .t 2]
+        | _ => [.s 1, .s 2, .t 1, .t 2]
       attempts := 2 }
 
 end Ro.Resub
